@@ -31,6 +31,23 @@ import vlib
 # traces diverge from the prediction, the monitor rejects them and the violation carries these signatures.
 SIG_O1 = "Q3:publickey-query-with-empty-algorithm"
 SIG_RETRY = "Q1r:retry-of-method-no-longer-listed"
+# Open finding C34-R2 (known_findings.json): a RetryableAuthMethod around PublicKeys loses the method list a rejected
+# signature brought when a later try returns no list; the next method is then picked from an older list.
+SIG_RETRYLIST = "Q1:stale-list-after-retried-publickey"
+
+
+def _after_retried_publickey(real, idx):
+    """Is real[idx] (a top-level begin) directly preceded by a publickey attempt in which the retry wrapper made >= 2 tries?"""
+    j = idx - 1
+    if j < 0 or real[j].get("ev") != "end" or real[j].get("inner") or real[j].get("m") != "publickey":
+        return False
+    tries = 0
+    j -= 1
+    while j >= 0 and not (real[j].get("ev") == "begin" and not real[j].get("inner")):
+        if real[j].get("ev") == "begin" and real[j].get("inner"):
+            tries += 1
+        j -= 1
+    return tries >= 2
 
 ASSUMPTIONS = [
     "ClientConfig.AuthCallback is nil (with it the application, not the client, picks the next method)",
@@ -95,6 +112,8 @@ def _judge(ctx, touts, label):
         t = touts[ti]
         ev = lines[lno - 1]
         sig = _specific_sig(clauses[0], ev)
+        if clauses == ["Q1"] and ev.get("ev") == "begin" and _after_retried_publickey(t["real"], lno - first[ti] - 2):
+            sig = SIG_RETRYLIST
         what = ("real clientAuthenticate run contradicts clause %s of C34 (config %s, server script %s): offending event %s"
                 % ("+".join(clauses), t["cfg"], t["script"], json.dumps({k: x for k, x in ev.items() if x not in ("", [], 0, False)})))
         ctx.violation(sig, what, {"clauses": clauses, "offending_event": ev, "event_index": lno - first[ti] - 2, "why_judged": t["why"],
@@ -179,16 +198,18 @@ def run(ctx):
     unjudged = 0
     # ---- exhaustive model checking of the design (thorough: larger bounds, repaired variants)
     if ctx.thorough:
-        for cfg in ["Main3", "Deep", "Bound", "RetryMC3", "RetryDeep", "O1MC3"]:
+        for cfg in ["Main3", "Deep", "Bound", "RetryMC3", "RetryDeep", "O1MC3", "RetryListFixed"]:
             r = ctx.tlc_must_hold("SSHAuthClient_MC", cfg="SSHAuthClient_%s.cfg" % cfg, timeout=1500, heap="6g")
             ctx.log("MC %s: %d distinct states" % (cfg, r.distinct))
         # documentation of the two repaired defects: the model of the old behaviour (FixO1 / FixRetry = FALSE)
         # must still exhibit the counterexamples -- this shows the clauses Q3 / Q1r can fail, nothing about the code
-        for cfg, inv in [("DocO1", "Q3"), ("DocRetry", "Q1r")]:
+        # (DocRetryList: the open finding C34-R2 -- the model of the code as it is violates Q1 for a retryable publickey entry;
+        #  the generators check Q1 outside those configurations (Q1Guard) and the real runs are judged by the monitor)
+        for cfg, inv in [("DocO1", "Q3"), ("DocRetry", "Q1r"), ("DocRetryList", "Q1")]:
             r = ctx.tlc("SSHAuthClient_MC", cfg="SSHAuthClient_%s.cfg" % cfg, timeout=900, expect_violation=True, count=False,
-                        note="old-behaviour model: design-level counterexample for %s (documentation only)" % inv)
+                        note="design-level counterexample for %s (documentation of a finding; verdicts come from real runs only)" % inv)
             if r.violated != inv:
-                raise vlib.Infra("the old-behaviour model %s should violate %s, TLC says %r" % (cfg, inv, r.violated))
+                raise vlib.Infra("the model %s should violate %s, TLC says %r" % (cfg, inv, r.violated))
         # vacuity: every action of the specification is taken in the quick generator's instance
         r = ctx.tlc_must_hold("SSHAuthClient_Gen", cfg="SSHAuthClient_Cov.cfg", timeout=900, coverage=True, count=False, heap="6g")
         if r.coverage_zero:
